@@ -78,10 +78,15 @@ def valid(c):
             return False
         if floaty and not all(abs(y) < 2 ** 20 and 64 % y.denominator == 0 for y in (v, i)):
             return False
+    nn = sum(1 for op in c["ops"] if op["op"] == "next")
     for op in c["ops"]:
         if op["op"] == "add":
             d = dec(op["delta"])
             if abs(d) >= 2 ** 20 or 64 % d.denominator != 0:
+                return False
+            if op.get("dk") in ("inf", "nan") and not d > nn + H:      # the model's stand-in: beyond the horizon
+                return False
+            if op.get("dk") == "-inf" and not d < 0:
                 return False
     return True
 
@@ -243,6 +248,33 @@ def random_mut(rng, big=False):
     return {"entry": "streamix_mut", "keep": rng.random() < 0.3, "zero": rng.choice([[], [], [0]]), "ops": ops}
 
 
+def random_inf(rng, big=False):
+    """an add with delta inf / nan (accepted; never reached: the queue behind it is blocked for ever, a mixer
+    without keep never ends) or -inf (ValueError); the model gets a delta beyond the horizon of the history
+    (number of nexts + 1; theorem beyond_horizon_never_starts)"""
+    bits = _bits()
+    ops = []
+    for _ in range(rng.randint(0, 3)):
+        ops.append(_add(rng.choice([0, 0, H, 1, 2]), bits(rng.choice([0, 1, 2, 4]))))
+        if rng.random() < 0.3:
+            ops.extend([NEXT] * rng.choice([1, 2]))
+    pre = _drain(ops)
+    ops.append(dict(_add(0, bits(rng.choice([0, 1, 2]))), dk=rng.choice(["inf", "inf", "nan", "-inf"])))
+    for _ in range(rng.randint(0, 3)):
+        if rng.random() < 0.4:
+            ops.extend([NEXT] * rng.choice([1, 2]))
+        else:
+            ops.append(_add(rng.choice([0, 0, H, 1]), bits(rng.choice([0, 1, 2]))))
+    ops.extend([NEXT] * (pre + rng.choice([0, 2, 5])))
+    nn = sum(1 for op in ops if op["op"] == "next")
+    for op in ops:
+        if op.get("dk") in ("inf", "nan"):
+            op["delta"] = nn + 1
+        elif op.get("dk") == "-inf":
+            op["delta"] = -1
+    return _kcase(ops, rng.choice([num("int", 0), num("float", 0), num("int", 5)]), keep=rng.random() < 0.3, drain=False, tag="inf")
+
+
 def generate(rng, tier, scale=1):
     cases = []
     if scale == 1:
@@ -254,6 +286,8 @@ def generate(rng, tier, scale=1):
         cases.append(finish_together(rng, big=(i % 4 == 0)) if i % 2 == 0 else random_k(rng, big=(i % 4 == 1)))
     for i in range((40 if tier == "quick" else 400) * scale):
         cases.append(random_mut(rng, big=(i % 4 == 0)))
+    for i in range((80 if tier == "quick" else 800) * scale):
+        cases.append(random_inf(rng))
     return cases
 
 
@@ -309,6 +343,8 @@ def _impl_k(c):
 def common_delta(op):
     d = dec(op["delta"])
     dk = op.get("dk", "int")
+    if dk in ("inf", "nan", "-inf"):
+        return float(dk)
     if dk == "float":
         return float(d)
     if dk == "frac":
@@ -487,6 +523,9 @@ def tally(eng, c, io):
         eng.count("mut_sample_is_zero_object", sum(1 for o in io["steps"] if isinstance(o, dict) and o.get("is_zero")) > 0)
         return
     eng.count("k_tag", c.get("tag", "?"))
+    for op, st in zip(c["ops"], io["steps"]):
+        if op.get("dk") in ("inf", "nan", "-inf"):
+            eng.count("k_delta_nonfinite", "%s -> %s" % (op["dk"], st[0] if isinstance(st[0], str) else st[0].get("err")))
     eng.count("k_zero", c["zero"]["k"] + ("" if dec(c["zero"]["v"]) == 0 and dec(c["zero"].get("i", 0)) == 0 else "-nonzero"))
     prev = []
     maxfin = 0
